@@ -1060,8 +1060,12 @@ func Run(s *simrt.Sim, mode string, ri *hkit.RunInfo) {
 	h.persistIv = time.Duration([]int{300, 1000, 3000, 10000, 60000}[g.Choose(5)]) * time.Millisecond
 	prevSplit := btree.SetSplit([]int{4, 8, 20, 100}[g.Choose(4)])
 	defer btree.SetSplit(prevSplit)
-	simmaphash.Bits.Store(int32([]int{0, 0, 16, 6}[g.Choose(4)]))
+	simmaphash.Bits.Store(int32([]int{0, 0, 16, 6, 4, 3}[g.Choose(6)]))
 	defer simmaphash.Bits.Store(0)
+	simmaphash.Salt.Store(g.Uint64())
+	defer simmaphash.Salt.Store(0)
+	simmaphash.Slots.Store(int32([]int{0, 0, 1, 2, 3}[g.Choose(5)]))
+	defer simmaphash.Slots.Store(0)
 	options.Nworkers = g.Range(1, 4)
 	db19.MakeSuTran = func(ut *db19.UpdateTran) *core.SuTran { return core.NewSuTran(nil, true) }
 	core.Exit = func(code int) { panic(simrt.Fatal{Msg: fmt.Sprintf("core.Exit(%d)", code)}) }
